@@ -21,6 +21,7 @@ func init() {
 	reg("H_C14_forwarding_shapes", H_C14_forwarding_shapes)
 	reg("H_C14_packet_envelope", H_C14_packet_envelope)
 	reg("H_C14_packet_fields", H_C14_packet_fields)
+	reg("H_C14_memo_documents", H_C14_memo_documents)
 }
 
 var recipientStrings = []string{"", "noble1nope", "x"}
@@ -229,3 +230,38 @@ func H_C14_packet() {
 
 func H_C14_packet_envelope() { H_C14_packet() }
 func H_C14_packet_fields()   { H_C14_packet() }
+
+// H_C14_memo_documents: memos that START with a complete, valid orbiter payload but are not one JSON document (bytes after
+// the closing brace), and the same payload in every wire form of the packet data: addressed to the orbiter account, the
+// malformed ones are refused with an error acknowledgement, the well-formed ones are executed; no panic either way.
+func H_C14_memo_documents() {
+	w := NewWorld(false)
+	A := math.NewInt(1000)
+	w.L.Set(escrow, nativeDenom, math.NewInt(5000))
+	f, err := fwdtypes.NewInternalForwarding(user1.String())
+	must(err)
+	var acts []*core.Action
+	if verif.Bool("with-fee") {
+		acts = append(acts, feeAction(100))
+	}
+	pl, err := core.NewPayload(f, acts...)
+	must(err)
+	tail := verif.Choose("bytes-after-the-document", 5)
+	extra := 0
+	if tail == 0 {
+		extra = verif.Choose("extra-root-keys", 2)
+	}
+	d := transfertypes.FungibleTokenPacketData{Denom: voucherOnSender, Amount: A.String(), Sender: "sender", Receiver: core.ModuleAddress.String(),
+		Memo: verif.EncodeMemoTail(&core.PayloadWrapper{Orbiter: pl}, extra, tail)}
+	ack := w.MW.OnRecvPacket(w.Ctx, packetOf(verif.EncodeICS20Wire(d, verif.Choose("wire-form", 3))), relayerAddr)
+	oneDocument := (tail == 0 || tail == 4) && extra == 0
+	if ack.Success() {
+		verif.Cover("success-ack")
+		verif.Assert(oneDocument, "malformed-memo-is-refused")
+		verif.Assert(w.L.Bal(core.ModuleAddress, nativeDenom).IsZero(), "nothing-left-on-orbiter")
+	} else {
+		verif.Cover("error-ack")
+		verif.Assert(!oneDocument, "well-formed-memo-is-executed")
+		verif.Assert(len(w.Int.reqs) == 0, "refused-packet-is-not-forwarded")
+	}
+}
